@@ -54,6 +54,21 @@ fn jresp(r: &Option<CoapResponse>) -> Value {
     }
 }
 
+/// the reply as a client parses it from the datagram: {"k":"none"} | {"k":"unencodable"} |
+/// {"k":"undecodable","bytes":[..]} | {"k":"ok","v":msg}; large replies are not re-parsed
+fn jwire(r: &Option<CoapResponse>) -> Value {
+    match r {
+        None => json!({"k": "none"}),
+        Some(r) => match r.message.to_bytes_unlimited() {
+            Err(_) => json!({"k": "unencodable"}),
+            Ok(b) => match guarded(|| Packet::from_bytes(&b)) {
+                Some(Ok(p)) => json!({"k": "ok", "v": jpkt(&p)}),
+                _ => json!({"k": "undecodable", "bytes": jbytes(&b[..b.len().min(64)])}),
+            },
+        },
+    }
+}
+
 pub struct H {
     pub h: BlockHandler<Ep>,
     start: Instant,
@@ -100,6 +115,7 @@ impl H {
         let o = outcome(&r);
         let resplen = req.response.as_ref().and_then(|x| x.message.to_bytes_unlimited().ok()).map(|b| b.len()).unwrap_or(0);
         out.ev(json!({"op": "ireq", "t0": t0, "t1": t1, "ep": ep, "req": before, "out": o, "resp": jresp(&req.response),
+                      "wire": jwire(&req.response),
                       "reqpay": jbytes(&req.message.payload), "resplen": resplen, "snap": self.snap(), "tag": tag}));
         (o, req)
     }
@@ -114,6 +130,7 @@ impl H {
         let o = outcome(&r);
         let resplen = req.response.as_ref().and_then(|x| x.message.to_bytes_unlimited().ok()).map(|b| b.len()).unwrap_or(0);
         out.ev(json!({"op": "iresp", "t0": t0, "t1": t1, "ep": ep, "req": rq, "app": before, "out": o, "resp": jresp(&req.response),
+                      "wire": jwire(&req.response),
                       "resplen": resplen, "snap": self.snap(), "tag": tag}));
         o
     }
@@ -185,6 +202,8 @@ pub struct Dl {
     pub toklen: usize,
     pub segs: Vec<Vec<u8>>,
     pub typ: u64,
+    /// an earlier transfer of another body on the same key, abandoned after this many exchanges
+    pub prior: usize,
 }
 
 fn app_options(resp: &mut CoapResponse, optset: u8) {
@@ -217,9 +236,34 @@ pub fn download(out: &mut Out, start: Instant, d: &Dl, r: &mut Rng, xid: u64) {
     let mut req_b2 = d.first_szx.map(|s| (0u16, false, s));
     let mut last_szx: Option<u8> = None;
     let limit = d.body_len / 16 + 8;
+    // an unfinished earlier transfer of another body for the same key (then the new transfer starts
+    // without a Block2 option, as C08's quantifier says)
+    if d.prior > 0 {
+        let other = body_bytes(150 + 16 * d.prior, 77 + xid as usize);
+        let mut b2: Option<(u16, bool, u8)> = None;
+        for _ in 0..d.prior {
+            mid = mid.wrapping_add(1);
+            let pkt = mkreq(&ReqSpec { code: 1, typ: d.typ, mid, tok: r.bytes(d.toklen), segs: &d.segs, b1: None, b2, pay: vec![], extra: vec![] });
+            let (o, mut req) = h.ireq(out, ep, &pkt, &json!({"x": xid, "kind": "dl-prior"}));
+            if o["k"] == "ok" && o["handled"] == false {
+                if let Some(resp) = req.response.as_mut() {
+                    resp.message.header.code = 0x45.into();
+                    resp.message.payload = other.clone();
+                    resp.message.add_option(CoapOption::ETag, vec![0xAB; 4]);
+                }
+                let _ = h.iresp(out, ep, &mut req, &json!({"x": xid, "kind": "dl-prior"}));
+            }
+            match req.response.as_ref().and_then(over_the_wire).and_then(|p| block_of(&p, CoapOption::Block2)) {
+                Some(b) if b.more => b2 = Some((b.num + 1, false, b.size_exponent)),
+                _ => break,
+            }
+        }
+        req_b2 = None;
+    }
     loop {
         mid = mid.wrapping_add(1);
-        let pkt = mkreq(&ReqSpec { code: 1, typ: d.typ, mid, tok: r.bytes(d.toklen), segs: &d.segs, b1: None, b2: req_b2, pay: vec![], extra: vec![] });
+        let tl = if r.chance(1, 3) { r.below(d.toklen as u64 + 1) as usize } else { d.toklen };
+        let pkt = mkreq(&ReqSpec { code: 1, typ: d.typ, mid, tok: r.bytes(tl), segs: &d.segs, b1: None, b2: req_b2, pay: vec![], extra: vec![] });
         let (o, mut req) = h.ireq(out, ep, &pkt, &tag);
         if o["k"] != "ok" {
             aborted = "intercept_request failed";
@@ -346,7 +390,8 @@ pub fn upload(out: &mut Out, start: Instant, u: &Ul, r: &mut Rng, xid: u64) {
         let mut ack: Option<BlockValue> = None;
         for _ in 0..dup {
             mid = mid.wrapping_add(1);
-            let pkt = mkreq(&ReqSpec { code: 3, typ: 0, mid, tok: r.bytes(u.toklen), segs: &u.segs, b1: Some((num as u16, more, cur_szx)), b2: None, pay: chunk.clone(), extra: vec![] });
+            let tl = if r.chance(1, 3) { r.below(u.toklen as u64 + 1) as usize } else { u.toklen };
+            let pkt = mkreq(&ReqSpec { code: 3, typ: 0, mid, tok: r.bytes(tl), segs: &u.segs, b1: Some((num as u16, more, cur_szx)), b2: None, pay: chunk.clone(), extra: vec![] });
             let (o, mut req) = h.ireq(out, ep, &pkt, &tag);
             if o["k"] != "ok" {
                 aborted = "intercept_request failed";
@@ -417,9 +462,13 @@ pub fn rec_block2(args: &Args) {
             3 => r.below(if thorough { 20000 } else { 3000 }) as usize,
             _ => r.below(200) as usize,
         };
-        let mut d = Dl { body_len, m: 1152, first_szx: szx_pick, reduce: None, optset: r.below(4) as u8, toklen: r.below(9) as usize, segs: r.pick(&segs).clone(), typ: r.below(2) };
+        let mut d = Dl { body_len, m: 1152, first_szx: szx_pick, reduce: None, optset: r.below(4) as u8, toklen: r.below(9) as usize, segs: r.pick(&segs).clone(), typ: r.below(2), prior: 0 };
         if r.chance(1, 4) {
             d.reduce = Some((r.range(1, 3) as usize, r.below(4) as u8));
+        }
+        if r.chance(1, 5) {
+            d.prior = r.range(1, 3) as usize;
+            d.first_szx = None;
         }
         let ov = overhead_of(&d);
         d.m = match r.below(5) {
@@ -505,7 +554,7 @@ pub fn rec_budget(args: &Args) {
         for optset in 0..4u8 {
             let toklen = r.below(9) as usize;
             let sg = r.pick(&segs).clone();
-            let base = Dl { body_len: 0, m: 0, first_szx: None, reduce: None, optset, toklen, segs: sg.clone(), typ: 0 };
+            let base = Dl { body_len: 0, m: 0, first_szx: None, reduce: None, optset, toklen, segs: sg.clone(), typ: 0, prior: 0 };
             let ov = overhead_of(&base);
             let mut ms: Vec<usize> = vec![];
             for p in 0..7 {
@@ -529,7 +578,7 @@ pub fn rec_budget(args: &Args) {
                 let client: Option<u8> = match r.below(9) { 8 => None, s => Some(s as u8) };
                 let room = m - ov - 12;
                 let body_len = match r.below(3) { 0 => room.saturating_sub(1 + r.below(2) as usize), 1 => room + r.below(3) as usize, _ => 3 * room.min(300) + r.below(20) as usize };
-                let d = Dl { body_len, m, first_szx: client, reduce: None, optset, toklen, segs: sg.clone(), typ: 0 };
+                let d = Dl { body_len, m, first_szx: client, reduce: None, optset, toklen, segs: sg.clone(), typ: 0, prior: 0 };
                 xid += 1;
                 download(&mut out, start, &d, &mut r, xid);
             }
@@ -751,7 +800,8 @@ fn transfer_script(kind: usize, ep: &str, code: u8, segs: &[Vec<u8>], r: &mut Rn
         for k in 0..len {
             mid += 1;
             let hi = (16 * (k + 1)).min(body.len());
-            let pkt = mkreq(&ReqSpec { code, typ: 0, mid, tok: r.bytes(2), segs, b1: Some((k as u16, k + 1 < len, 0)), b2: None, pay: body[16 * k..hi].to_vec(), extra: vec![] });
+            let tl = r.below(9) as usize;
+            let pkt = mkreq(&ReqSpec { code, typ: 0, mid, tok: r.bytes(tl), segs, b1: Some((k as u16, k + 1 < len, 0)), b2: None, pay: body[16 * k..hi].to_vec(), extra: vec![] });
             steps.push(json!({"op": "ireq", "ep": ep, "req": jpkt(&pkt), "app": {"some": true, "v": {"code": 0x44, "pay": [], "opts": []}}}));
         }
     } else {
@@ -759,7 +809,8 @@ fn transfer_script(kind: usize, ep: &str, code: u8, segs: &[Vec<u8>], r: &mut Rn
         let body = body_bytes(16 * len - 3, salt);
         for k in 0..len {
             mid += 1;
-            let pkt = mkreq(&ReqSpec { code, typ: 0, mid, tok: r.bytes(3), segs, b1: None, b2: Some((k as u16, false, 0)), pay: vec![], extra: vec![] });
+            let tl = r.below(9) as usize;
+            let pkt = mkreq(&ReqSpec { code, typ: 0, mid, tok: r.bytes(tl), segs, b1: None, b2: Some((k as u16, false, 0)), pay: vec![], extra: vec![] });
             steps.push(json!({"op": "ireq", "ep": ep, "req": jpkt(&pkt), "app": {"some": true, "v": {"code": 0x45, "pay": jbytes(&body), "opts": [[4, [[salt as u8]]]]}}}));
         }
     }
